@@ -891,9 +891,9 @@ impl DhtHandler {
 
     /// the bootstrap task's published state (a tokio watch channel: its value is arbitrary at every read)
     pub open spec fn spec_bootstrapped(&self) -> bool { watch::val(self.bootstrap.state_rx) == bootstrap::State::Bootstrapped }
-//@begin fn src/handler.rs impl:DhtHandler is_bootstrapped nopub=1 props=C16
+//@begin fn src/handler.rs impl:DhtHandler is_bootstrapped nopub=1 props=C16,C18,C11,C04
     fn is_bootstrapped(&self) -> (r: bool)
-        ensures r == self.spec_bootstrapped(), // @C16.bootstrapped_means_state_is_bootstrapped
+        ensures r == self.spec_bootstrapped(), // @C16.bootstrapped_means_state_is_bootstrapped @C18.bootstrapped_means_state_is_bootstrapped @C11.bootstrapped_means_state_is_bootstrapped @C04.bootstrapped_means_state_is_bootstrapped
     {
         *self.bootstrap.state_rx.borrow() == bootstrap::State::Bootstrapped
     }
